@@ -60,7 +60,7 @@ class Factor:
                 self.forms.append("key-with-times")
                 return {name: body}
             if k < 55 and isinstance(body, list) and not key.startswith("$") and len(it) == 1:
-                strs = [i for i, x in enumerate(body) if isinstance(x, str) and not x.startswith("&")]
+                strs = [i for i, x in enumerate(body) if isinstance(x, (str, int)) and not str(x).startswith("&")]
                 if strs:
                     name = self.fresh()
                     i = g.pick(strs)
